@@ -39,8 +39,11 @@ fn eval_text(case: &TextCase, entry: Entry, cx: &mut Ctx) -> R {
             if !structurally_ok(text) {
                 cx.fail(format!("C08/accepted-bad-structure/{}", case.name), format!("{} accepted {:?}", entry.name(), shown))?;
             }
-            if let Some((dm, _)) = decode(text, true) {
-                if adopt(&board) != dm {
+            if let Some((dm, notation)) = decode(text, true) {
+                // plain letters are read as the h/a files by the decoder; where that reading is not supported
+                // by the position another reading (X-FEN: outermost rook) is possible and nothing is asserted
+                let other_reading_possible = notation == Notation::Plain && dm.defects().iter().any(|d| d.0 == Aspect::Castling);
+                if !other_reading_possible && adopt(&board) != dm {
                     cx.fail(format!("C08/denotation/{}", case.name), format!("{} read {:?} as {:#}", entry.name(), shown, board))?;
                 }
             }
